@@ -2,8 +2,8 @@
 """tools/package_seed.py Cxx "<what it needs to manifest>"  - copy a verified sub-agent change from /tmp/seed_Cxx (+ verification logs in /tmp/vs_Cxx)
 into /verif/seeded/Cxx/ (patch.diff, demo_seeded.py, notes.md, meta.json)."""
 import json, os, re, shutil, subprocess, sys
-pid, needs = sys.argv[1], sys.argv[2]
-src, vs, dst = f'/tmp/seed_{pid}', f'/tmp/vs_{pid}', f'/verif/seeded/{pid}'
+pid, needs = sys.argv[1], sys.argv[2]       # pid may carry a suffix: C01b = second change for C01
+src, vs, dst = os.environ.get('SEED_SRC') or f'/tmp/seed_{pid}', f'/tmp/vs_{pid}', f'/verif/seeded/{pid}'
 os.makedirs(dst, exist_ok=True)
 shutil.copy(f'{src}/seeded_patch.diff', f'{dst}/patch.diff')
 demo = open(f'{src}/demo_seeded.py').read().replace(src, '__WORKTREE__')
@@ -15,7 +15,7 @@ m = re.search(r'demo without patch: exit (\d+)\s+with patch: exit (\d+)', log)
 suite = re.search(r'stable baseline (\d+), passed now (\d+), baseline tests not passing: (\d+)', log)
 head = subprocess.run(['git', '-C', '/repo', 'log', '--format=%h', '-1'], capture_output=True, text=True).stdout.strip()
 meta = {
-    'property': pid,
+    'property': pid[:3],
     'origin': 'written by a sub-agent that was given only the property text and a scratch worktree of /repo (nothing from /verif)',
     'applies_to_repo_commit': head,
     'files_changed': sorted(set(re.findall(r'^\+\+\+ b/(\S+)', open(f'{dst}/patch.diff').read(), re.M))),
